@@ -25,6 +25,17 @@ SPECIAL = [
     "from t | join side:nosuch u (==a)",
     "from t | sort nosuch:1 {a}",
     "from t | select {x = case [a => 1, b => 2, c => 3]} | filter x == y",
+    # several named arguments that each fail on their own (the first failure reported must not depend on map order)
+    "let f = x a:1 b:2 -> x\nfrom t | derive {y = (f a:(==1) b:(==t.c) 3)}",
+    "let f = x a:1 b:2 c:3 -> x\nfrom t | derive {y = (f c:(==2) a:(==1) b:(==t.c) 3)}",
+    "let f = x a:1 b:2 -> x\nfrom t | derive {y = (f a:nosuch1 b:nosuch2 3)}",
+    # the same name declared in several name-spaces: which relation keeps the name in SQL must not depend on map order
+    "module north {\n  let totals = (from north_orders | group cust (aggregate {amt = sum amount}))\n}\nmodule south {\n  let totals = (from south_orders | group cust (aggregate {amt = sum amount}))\n}\nfrom n = north.totals\njoin s = south.totals (==cust)\nselect {n.cust, north = n.amt, south = s.amt}",
+    "module a {\n  let x = (from ta | take 3)\n}\nmodule b {\n  let x = (from tb | take 3)\n}\nmodule c {\n  let x = (from tc | take 3)\n}\nfrom a.x | join bx = b.x (==id) | join cx = c.x (==id) | select {a.x.id, bx.v, cx.w}",
+    "module m {\n  let best = (from t1 | sort a | take 2)\n}\nlet best = (from t2 | sort a | take 2)\nfrom best | join mb = m.best (==id) | select {best.id, mb.a}",
+    "module m {\n  let table_0 = (from t1 | take 2)\n}\nlet table_1 = (from t2 | take 2)\nfrom m.table_0 | join table_1 (==id) | join (from t3 | take 1) (==id) | sort {this.id} | take 5 | filter id > 1",
+    "module p {\n  module q {\n    let r = (from t1 | take 1)\n  }\n  let r = (from t2 | take 1)\n}\nlet r = (from t3 | take 1)\nfrom r | join a = p.r (==id) | join b = p.q.r (==id)",
+    "module a {\n  let f = x -> x + 1\n}\nmodule b {\n  let f = x -> x + 2\n}\nfrom t | derive {u = a.f v, w = b.f v}",
 ]
 NOISE_ERR = "from t | select {a} | filter nosuchcolumn > 1"
 NOISE_PANIC = "from t1\nselect{t1.s,n6=a}\nselect{n6,s, n7 = n6}\nselect {n6, n8 = s}\nfilter (2 > (n6 ))\nsort {n6, n8}\n"
